@@ -69,7 +69,10 @@ class NextOf(Native):
         return 'NextOf'
 
     def call(self, args, kwargs, interp, frame, node):
-        return self.it.next_value(interp, frame, node)
+        if isinstance(self.it, Native) and hasattr(self.it, 'next_value'):
+            return self.it.next_value(interp, frame, node)
+        # any other iterator the code made itself (iter(ids), a generator expression): the evaluator's own next()
+        return interp.builtin('next', [self.it], {}, node, frame)
 
 
 class Table(Native):
